@@ -29,7 +29,7 @@ NT_LABELS = {"signed_nonstd", "enum_leaf", "ext_message", "ext_array", "array", 
 
 
 def strategy(tier: str) -> Any:
-    return cases.sv_cases(S.Features(), nrand=2)
+    return cases.sv_cases(S.Features(), nrand=2, python_only=True)
 
 
 def _leaf_eq(lf: ref.Leaf, a: Any, b: Any) -> bool:
